@@ -31,6 +31,7 @@ cp "$D/$X.diff" "$OUT/patch.diff"
 cp "$D/seeded_demo_$X.rs" "$OUT/demo.rs"
 cp "$D/NOTES.md" "$OUT/NOTES.md" 2>/dev/null
 RES=""
+[ -n "${NOCHECK:-}" ] && CHECKS=""   # confirmation only (when /repo is busy); run the checks later with tools/mutant.sh
 for C in $CHECKS; do
   R=$(/verif/tools/mutant.sh "$OUT/patch.diff" "$C" quick 2>&1 | head -1)
   echo "   $R"
@@ -39,7 +40,7 @@ done
 python3 - "$P" "$X" "$OUT" "$SUITE" "$SUITEF" "$DEMO_WITH" "$DEMO_WITHOUT" "$RES" <<'PY'
 import sys, json
 p,x,out,suite,suitef,dw,dwo,res=sys.argv[1:9]
-hard=p.startswith("H"); cross=p.startswith("X"); p="C"+p[1:]
+hard=p.startswith("H"); cross=p.startswith("X") or p.startswith("Y"); p="C"+p[1:]
 json.dump({"property":p,"round":("hard mode: size thresholds / conjunctions / long histories" if hard else ("cross-module mode: defect outside the obvious module, route- or entry-point-specific" if cross else "1")),"variant":x,"source":"independent sub-agent given only the property text and a scratch worktree",
  "existing_suite_with_change":suite,"existing_suite_with_change_all_features":suitef,
  "demo_with_change":dw.strip(),"demo_without_change":dwo.strip(),"checks_run":res.strip(),
